@@ -130,6 +130,7 @@ def delayed_load(all_props, loader, element=True, isotope=False, ion=False):
         def setfn(el, value):
             #print "set", el, propname, value
             clearprops()
+            loader()
             setattr(el, propname, value)
         return setfn
 
